@@ -48,3 +48,13 @@ Theorem C18_reset_of_new_is_identity :
   = fresh zero one int0 ffalse none empty idle_framer asm_empty no_carrier tr_idle enabled_feedback initial_gain alphabeta p.
 Proof. exact reset_fresh. Qed.
 Print Assumptions C18_reset_of_new_is_identity.
+
+(** the two float components whose state outlives a burst, bit-exact (Flocq binary32): reset after ANY history = new *)
+From Sameold Require Import Model.ConfigSizes Model.FloatDsp Proofs.FloatDspP.
+Theorem C18_dc_blocker_reset_is_new : forall len xs, dcb_reset (dfeed (dcb_new len) xs) = dcb_new len.
+Proof. exact dcb_reset_is_new. Qed.
+Print Assumptions C18_dc_blocker_reset_is_new.
+
+Theorem C18_agc_reset_is_new : forall bw lo hi ops, agc_reset (fst (agc_run (agc_new bw lo hi) ops)) = agc_new bw lo hi.
+Proof. exact agc_reset_is_new. Qed.
+Print Assumptions C18_agc_reset_is_new.
